@@ -55,6 +55,9 @@ func (v *Verifier) verifyFunction(fn *ssa.Function, c *FuncContract) {
 	}
 	x.findLoops()
 	x.numberSites()
+	if strings.HasPrefix(c.Determ, "structural") {
+		x.checkDeterministic()
+	}
 	// check that invariants refer to existing loops
 	for _, inv := range c.Invariants {
 		found := false
@@ -549,12 +552,23 @@ func (x *fnExec) ctxLoop(st *State, li *loopInfo) *EvalCtx {
 			}
 		}
 	}
-	// $i: the index phi of a rangeindex loop
-	for _, in := range li.head.Instrs {
-		if phi, ok := in.(*ssa.Phi); ok && phi.Comment == "rangeindex" {
-			if t, ok := st.vals[phi]; ok {
-				// SSA range index starts at -1 and is incremented before use; expose the number of completed iterations
-				c.vars["$i"] = mkTerm("(+ "+t.S+" 1)", sInt, types.Typ[types.Int])
+	// $i: the index phi of a rangeindex loop; $i<N> / $visited<N>: the same for enclosing loop N
+	for _, l2 := range x.loops {
+		for _, in := range l2.head.Instrs {
+			if phi, ok := in.(*ssa.Phi); ok && phi.Comment == "rangeindex" {
+				if t, ok := st.vals[phi]; ok {
+					// SSA range index starts at -1 and is incremented before use; expose the number of completed iterations
+					it := mkTerm("(+ "+t.S+" 1)", sInt, types.Typ[types.Int])
+					c.vars[fmt.Sprintf("$i%d", l2.ordinal)] = it
+					if l2 == li {
+						c.vars["$i"] = it
+					}
+				}
+			}
+			if nx, ok := in.(*ssa.Next); ok {
+				if it, ok := st.iters[nx.Iter]; ok && it.Kind == "map" {
+					c.vars[fmt.Sprintf("$visited%d", l2.ordinal)] = mkTerm(it.Visited, arrSort(it.KSort, sBool), nil)
+				}
 			}
 		}
 	}
@@ -621,11 +635,11 @@ func (x *fnExec) havocLoop(st *State, li *loopInfo) {
 	if all {
 		x.havocAll(st)
 	} else {
+		// alloc may grow
+		x.bumpAlloc(st)
 		for _, name := range mods {
 			st.heapHavoc(v, name, v.heapSorts[name])
 		}
-		// alloc may grow
-		x.bumpAlloc(st)
 	}
 	// iterators advanced inside the loop
 	for b := range li.body {
@@ -884,6 +898,9 @@ func (x *fnExec) callModifies(call *ssa.CallCommon, isGo bool) ([]string, bool) 
 func (x *fnExec) modTargetHeaps(m string, c *FuncContract) ([]string, bool) {
 	v := x.v
 	m = strings.TrimSpace(m)
+	if strings.HasPrefix(m, "new(") && strings.HasSuffix(m, ")") {
+		m = strings.TrimSpace(m[4 : len(m)-1])
+	}
 	if m == "*" {
 		return nil, true
 	}
@@ -1204,6 +1221,10 @@ func (x *fnExec) readLoc(st *State, l Loc) Term {
 	case "field", "cell":
 		return mkTerm(sel(st.heapGet(v, l.Heap, l.HSort), l.Ref), l.Sort, l.T)
 	case "global":
+		if ct, ok := v.constGlobals[l.Heap]; ok {
+			ct.T = l.T
+			return ct
+		}
 		return mkTerm(st.heapGet(v, l.Heap, l.HSort), l.Sort, l.T)
 	case "arrelem":
 		return mkTerm(sel(sel(st.heapGet(v, l.Heap, l.HSort), l.Ref), l.Idx), l.Sort, l.T)
@@ -1317,4 +1338,53 @@ func (v *Verifier) rtypeFact(t Term) string {
 	}
 	v.decls.add("fun:rtype", "(declare-fun rtype (Int) Int)")
 	return "(=> (not (= " + t.S + " 0)) (= (rtype " + t.S + ") " + fmt.Sprint(id) + "))"
+}
+
+// checkDeterministic: structural obligation (no solver): the function's result cannot depend on map iteration order,
+// scheduling, time or randomness: no map range, select, go or channel operation, and every callee is itself deterministic
+// (structurally, or by a contract that pins the result down uniquely).
+func (x *fnExec) checkDeterministic() {
+	var problems []string
+	for _, b := range x.fn.Blocks {
+		for _, in := range b.Instrs {
+			switch i := in.(type) {
+			case *ssa.Range:
+				if _, ok := i.X.Type().Underlying().(*types.Map); ok {
+					problems = append(problems, "range over a map")
+				}
+			case *ssa.Select:
+				problems = append(problems, "select")
+			case *ssa.Go:
+				problems = append(problems, "go statement")
+			case *ssa.Send, *ssa.MakeChan:
+				problems = append(problems, "channel operation")
+			case *ssa.UnOp:
+				if i.Op == token.ARROW {
+					problems = append(problems, "channel receive")
+				}
+			case *ssa.Call:
+				if _, ok := i.Call.Value.(*ssa.Builtin); ok {
+					continue
+				}
+				c := x.calleeContract(&i.Call)
+				name := x.calleeName(&i.Call)
+				if c == nil {
+					problems = append(problems, "call of "+name+" (no contract)")
+				} else if c.Determ == "" && !c.NoReturn {
+					problems = append(problems, "call of "+name+" (not marked deterministic)")
+				}
+			}
+		}
+	}
+	props := x.c.DetermProps
+	if len(props) == 0 {
+		props = x.c.Props
+	}
+	o := &Obligation{Name: x.fnName() + ".deterministic", Func: x.fnName(), Kind: "structural", Label: "deterministic", Props: props,
+		Clause: "result is a function of the inputs only (structural scan)", Goal: "true", Preset: true, Result: "unsat", Solver: "structural-scan"}
+	if len(problems) > 0 {
+		o.Result = "structural-fail"
+		o.Output = strings.Join(dedup(problems), "; ")
+	}
+	x.v.obls = append(x.v.obls, o)
 }
